@@ -10,7 +10,9 @@ EXPLANATION = ("Liveness over all schedules is not statically decidable; these a
                "(e) every Blocked outcome is preceded by a registration that later yields Writable (write_source, received_max_stream_data); connection_blocked is drained "
                "only when write_limit() > 0; (f) loss probes bypass the congestion/pacing gate (C12.c); (g) maybe_queue_probe runs for every space before the send loop and "
                "always leaves something ack-eliciting queued; (h) the Pacing timer is armed on the only pacing-blocked exit, MaxAckDelay whenever packet_received asks for it; "
-               "(i) the pacer only moves its reference time forward when tokens were generated. Completion within bounded time is NOT decided.")
+               "(i) the pacer only moves its reference time forward when tokens were generated; (j) every function that changes the state read by Send::is_pending "
+               "(write, finish, retransmit, retransmit_all_for_0rtt, write_stream_frames) keeps `is_pending() => queued in StreamsState.pending`: the is_pending() sample deciding "
+               "the push is taken before the change (enqueue-if-absent) resp. after it (requeue of a popped stream) and its deciding edge always reaches the push. Completion within bounded time is NOT decided.")
 RULE = "rule instances = (rule, site) pairs over MIR call sites / branches / constant tables; non-trivial = bound to a real site"
 
 
@@ -529,6 +531,167 @@ def rule_i(ctx):
                    [w.bb for w in st], what='new_tokens == 0', stop_named=True)
 
 
+# --------------------------------------------------------------------------
+# (j) a send stream for which Send::is_pending() holds is in the queue of streams with data to send
+# --------------------------------------------------------------------------
+
+def _pending_predicate_reads(ctx, pred):
+    """(owner type, field) pairs that decide `pred` (Send::is_pending): the fields of `self` met in its returned value and
+    branch conditions and in those of the workspace predicates it delegates to directly (SendBuffer::has_unsent_data; one
+    level, so a collection such as `retransmits` is a leaf as a whole).  The field a followed predicate is called ON
+    (Send.pending) is a container, not a leaf."""
+    F = ctx.facts
+    leaves = set()
+
+    def visit(b, depth):
+        owner = b.short.split('::')[0]
+
+        def rec(x):
+            if not isinstance(x, tuple) or not x:
+                return
+            if x[0] == 'field' and isinstance(x[1], tuple) and x[1] and x[1][0] == 'param':
+                leaves.add((owner, x[2]))
+                return
+            if x[0] == 'call' and depth > 0 and x[2] in F.bodies and F.bodies[x[2]].kind == 'fn' and F.bodies[x[2]].crate == b.crate:
+                visit(F.bodies[x[2]], depth - 1)
+                return
+            for y in x[1:]:
+                if isinstance(y, tuple):
+                    if y and isinstance(y[0], str):
+                        rec(y)
+                    else:
+                        for z in y:
+                            rec(z)
+        for r, d in ret_descs(F, b):
+            rec(d)
+        for br in branches(F, b):
+            rec(br.desc)
+    visit(pred, 1)
+    return leaves
+
+
+def _pending_state_changes(ctx, pred):
+    """sites OUTSIDE the impls of the types owning the pending state that can change what Send::is_pending() reports:
+    direct stores to a field the predicate reads, and calls of a method of those types that (transitively, inside those
+    impls) stores to one.  returns ({root fn id: [(body, bb, where, text)]}, leaves, owners)"""
+    F = ctx.facts
+    leaves = _pending_predicate_reads(ctx, pred)
+    owners = {o for o, f in leaves}
+
+    def owned(b):
+        return F.root_of(b).short.split('::')[0] in owners and F.root_of(b).crate == pred.crate
+
+    direct = {}
+    for o, f in sorted(leaves):
+        for w in field_writes(F, o, f, crate='quinn_proto'):
+            if w.kind == 'mutborrow' and w.call is not None and is_noise(w.call):
+                continue
+            direct.setdefault(F.root_of(w.body).id, []).append((w, '%s.%s' % (o, f)))
+    changers = {i for i in direct if owned(F.bodies[i])}
+    grew = True
+    while grew:
+        grew = False
+        for b in F.code_bodies('quinn_proto'):
+            r = F.root_of(b)
+            if r.id in changers or not owned(b):
+                continue
+            if any(c.bb in b.live_blocks() and c.f in changers for c in b.calls()):
+                changers.add(r.id)
+                grew = True
+    sites = {}
+    for i, ws in direct.items():
+        if not owned(F.bodies[i]):
+            for w, what in ws:
+                sites.setdefault(i, []).append((w.body, w.bb, w.where(), 'store to ' + what))
+    for b in F.code_bodies('quinn_proto'):
+        if owned(b):
+            continue
+        live = b.live_blocks()
+        for c in b.calls():
+            if c.bb in live and c.f in changers:
+                sites.setdefault(F.root_of(b).id, []).append((b, c.bb, c.where(), 'call of ' + short(c.f)))
+    return sites, leaves, owners
+
+
+def rule_j(ctx):
+    """Queue membership.  write_stream_frames only ever looks at streams popped from StreamsState.pending, so a stream whose
+    is_pending() is true but which is not in that queue is never transmitted again and nothing re-queues it (every site
+    below pushes only when the stream was NOT pending before).  Two protocols keep `is_pending() => queued`:
+      enqueue-if-absent   sample = is_pending(); [change]; if !sample { push }   -- the sample is taken BEFORE every change of
+                          the state is_pending() reads (taken afterwards it is always true and nothing is pushed)
+      requeue-if-pending  pop; change..; if is_pending() { push | reinsert }    -- the sample is taken AFTER every change
+    decided per function on which edge of the branch on the sample reaches the push."""
+    F = ctx.facts
+    pred = ctx.pfn('Send::is_pending')
+    sites, leaves, owners = _pending_state_changes(ctx, pred)
+    ctx.floor('j', 'pending_predicate_fields', len(leaves), 2)
+    PUSH = ('PendingStreamsQueue::push_pending', 'PendingStreamsQueue::reinsert_pending')
+    nfn = 0
+    for rid in sorted(sites):
+        f = F.bodies[rid]
+        ms = sites[rid]
+        nfn += 1
+        if any(b.id != f.id for b, bb, where, text in ms):
+            ctx.bad('j', 'pending_state_changed_inside_closure', f, f.where(), 'a change of the state read by Send::is_pending happens inside a closure of %s: ordering against the sample cannot be decided' % f.short)
+            continue
+        samples = [c for c in f.calls_to('Send::is_pending')]
+        push = {c.bb for c in f.calls_to(*PUSH)}
+        pops = {c.bb for c in f.calls_to('PendingStreamsQueue::pop')}
+        sample_bbs = {c.bb for c in samples}
+        absent, requeue, odd = [], [], []
+        for br in branches(F, f):
+            inner, t_yes, t_no = _bool_edges_of(br)
+            ss = [c for c in samples if inner[0] in ('call', 'phi') and is_site(inner, c)]
+            if not ss or t_yes is None or t_no is None or t_yes == t_no:
+                continue
+            on_no = push & f.reachable_from(t_no, avoid=[br.bb])
+            on_yes = push & f.reachable_from(t_yes, avoid=[br.bb])
+            if on_no and not on_yes:
+                absent.append((br, ss, t_yes, t_no))
+            elif on_yes and not on_no:
+                requeue.append((br, ss, t_yes, t_no))
+            else:
+                odd.append(br)
+        if not push or not (absent or requeue):
+            ctx.bad('j', 'pending_state_changed_without_queue_protocol', f, ms[0][2],
+                    '%s changes the state read by Send::is_pending (%s) but has no branch on an is_pending() sample that decides a push into the pending-streams queue: a stream made pending here is never transmitted' % (f.short, ms[0][3]))
+            continue
+        ends = set(f.return_blocks())
+        # (1) ordering of every change against the sample that decides the push
+        bad = []
+        for b, bb, where, text in ms:
+            ok = False
+            for br, ss, t_yes, t_no in absent:
+                if any(s.bb != bb and f.dominates(s.bb, bb) for s in ss):
+                    ok = True
+            for br, ss, t_yes, t_no in requeue:
+                for s in ss:
+                    after = f.reachable_from(list(f.succ[s.bb]), avoid=pops)
+                    sampled = bb == s.bb or path_avoiding(f, list(f.succ[bb]), ends | pops, {s.bb}) is None
+                    if bb not in after and sampled:
+                        ok = True
+            if not ok:
+                bad.append('%s at %s' % (text, where))
+        kind = 'enqueue-if-absent' if absent and not requeue else ('requeue-if-pending' if requeue and not absent else 'mixed')
+        ctx.check(not bad, 'j', 'pending_sample_ordered_against_change', f, ms[0][2],
+                  '%s: %d change(s) of is_pending() state; sample %s' % (kind, len(ms), 'dominates every change' if absent else 'follows every change of the popped stream'),
+                  '%s (%s): the is_pending() sample that decides the push is not taken %s: %s — the stream can end up pending but not queued' % (
+                      f.short, kind, 'before the change (a sample taken afterwards is always true, so nothing is pushed)' if absent else 'after the change', '; '.join(bad)))
+        # (2) the deciding edge always reaches the push before the function returns / the next stream is looked at
+        esc = []
+        for br, ss, t_yes, t_no in absent:
+            p = path_avoiding(f, [t_no], ends | sample_bbs | pops, push)
+            if p is not None:
+                esc.append('not-pending edge: ' + fmt_path(f, p))
+        for br, ss, t_yes, t_no in requeue:
+            p = path_avoiding(f, [t_yes], ends | sample_bbs | pops, push)
+            if p is not None:
+                esc.append('still-pending edge: ' + fmt_path(f, p))
+        ctx.check(not esc and not odd, 'j', 'deciding_edge_always_queues', f, ms[0][2], '%s: every path from the deciding edge passes push_pending / reinsert_pending' % kind,
+                  '%s: %s' % (f.short, '; '.join(esc) if esc else 'a branch on is_pending() reaches the push on both edges or on neither: the push is not decided by the sample'))
+    ctx.floor('j', 'pending_state_change_functions', nfn, 5)
+
+
 def run(ctx):
     rule_a(ctx)
     rule_b(ctx)
@@ -539,3 +702,4 @@ def run(ctx):
     rule_g(ctx)
     rule_h(ctx)
     rule_i(ctx)
+    rule_j(ctx)
